@@ -7,6 +7,6 @@ require (
 	pgregory.net/rapid v1.3.0
 )
 
-require github.com/expr-lang/expr v1.17.8 // indirect
+require github.com/expr-lang/expr v1.17.8
 
 replace github.com/rulego/streamsql => /repo
